@@ -153,7 +153,9 @@ def h_wfault(ctx, mods, shape):
         ctx.check(True, 'the call raised (allowed)')
 
 
-HARNESSES = {'short': h_short, 'sendlen': h_sendlen, 'wfault': h_wfault}
+from .c06 import h_threads, h_async
+
+HARNESSES = {'short': h_short, 'sendlen': h_sendlen, 'wfault': h_wfault, 'threads': h_threads, 'async': h_async}
 
 
 def shapes(tier, seed):
@@ -171,4 +173,8 @@ def shapes(tier, seed):
         out.append({'h': 'wfault', 'impl': impl, 'spec': 'shell', 'nwrites': 8})
         if not q:
             out.append({'h': 'short', 'impl': impl, 'op': 'push', 'spec': ['push', {'size': 20000}], 'nshort': 1})
+    # a short write while another stream is sending: the remainder still follows immediately (framing oracle only; results belong to C06)
+    sh = ['shell', {'lens': [1]}]
+    out.append({'h': 'async', 'ops': [sh, sh], 'short_writes': 1, 'judge_results': False, 'max_paths': 200000})
+    out.append({'h': 'threads', 'ops': [sh, sh], 'short_writes': 1, 'preempt': 1, 'yields': False, 'judge_results': False, 'max_paths': 200000})
     return out
